@@ -74,6 +74,14 @@ func impostor(c *Conf) {
 	case "nocert-plaintext": // a plugin that ignores PLUGIN_CLIENT_CERT altogether
 		announce, serve = "", nil
 	}
+	if c.Impostor == "sibling-address" {
+		// announces a fresh certificate and the ADDRESS of the plugin the same host launched before (it relays, or simply
+		// points at, that plugin): the host must not take the sibling for the plugin that announced this certificate
+		fmt.Printf("%d|1|unix|%s|%s|%s\n", plugin.CoreProtocolVersion, os.Getenv("VP_SIBLING_ADDR"), c.LegacyProto, f1Field)
+		os.Stdout.Sync()
+		time.Sleep(60 * time.Second)
+		return
+	}
 	pool := x509.NewCertPool()
 	pool.AppendCertsFromPEM([]byte(os.Getenv("PLUGIN_CLIENT_CERT")))
 	var tc *tls.Config
